@@ -123,6 +123,30 @@ def build_base(p):
         return T.square_lattice(p["nx"], p["ny"])
     if kind == "brick":
         return T.brick_lattice(p["nx"], p["ny"])
+    if kind == "wheel":
+        # a hub cell surrounded by N ring cells (N = nx * ny): one cell with N internal interfaces; internal
+        # interfaces are bent into arcs with drawn subtended angles
+        import cmath as _c
+        from dataclasses import replace as _rep
+        N = max(6, p["nx"] * p["ny"])
+        rng = T.PRNG(p.get("seed", 0))
+        hub = [(math.cos(2 * math.pi * k / N), math.sin(2 * math.pi * k / N)) for k in range(N)]
+        out = [(2.2 * x, 2.2 * y) for x, y in hub]
+        polys = [hub] + [[hub[k], out[k], out[(k + 1) % N], hub[(k + 1) % N]] for k in range(N)]
+        t = T._lattice_from_polys(polys, "wheel")
+        ridges = []
+        for r in t.ridges:
+            if r.left is not None and r.right is not None:
+                a, b = t.J[r.a], t.J[r.b]
+                # the bulge of an arc stays well inside the thin ring cells: sagitta = L * theta / 8 << cell width
+                wmin = 2 * math.sin(math.pi / N)
+                th_max = min(0.45, 1.2 * wmin / abs(b - a))
+                th = float(rng.uniform(0.25, 1.0)) * th_max * (1 if rng.uniform() < 0.5 else -1)
+                e = _c.exp(1j * th)
+                ridges.append(_rep(r, c=(a * e - b) / (e - 1), theta=th))
+            else:
+                ridges.append(r)
+        return _rep(t, ridges=ridges)
     if kind == "triborder":
         # a polygonal triangular cell on the tissue border between two larger cells (all sides straight), optionally
         # with a row of further cells below; corners jittered by the seed
